@@ -150,7 +150,7 @@ def run(ctx):
     h2 = vlib.cc_harness("kern_hcache", ["kern_hcache.c"], kind="asan")
     m2 = vlib.build_model("hcache", "XHCache.v", "driver_hcache.ml")
     vlib.k_tie(ctx, "header_cache", "%s %d %d" % (h2, ctx.seed + 15, 200 if q else 5000), m2,
-               "header_read / header_seek with an I/O layer that transfers everything / nothing / half / a random part", key="hcache")
+               "header_read / header_seek with an I/O layer that transfers everything / nothing / half / a random part", key="hcache", timeout=150)
     rng = vlib.Rng(ctx.seed * 15485863 + 15)
     seen = set()
 
